@@ -23,6 +23,13 @@ def run(cx):
     from props.shared import ack_processing_presence, dispatch_table
     ack_processing_presence(cx, "C11.h")
     dispatch_table(cx, "C11.i", only={"DataFrame", "SyncFrame", "AckFrame"})
+    from props.shared import sync_refusal_exact
+    sync_refusal_exact(cx, "C11.j")
+    from props.idarith import id_arith_discipline
+    id_arith_discipline(cx, "C11.k")
+    from props.shared import half_connection_clock
+    half_connection_clock(cx, "C11.l")
+    ack_advance_exact(cx, "C11.m")
 
 
 def window_limited_still_syncs(cx, iid):
@@ -98,6 +105,56 @@ def resync_acceptance(cx, iid):
                 g, _ = dnf_holds(afa.at(loc), [[r"eq\(0,%s\)" % dd], [r"lt\(arg1\.size,%s\)" % dd]])
                 if not g:
                     inst.violation(a.path, "frame resync over-rejected", "ReceiveWindow::advance refuses an advance of 1..size frames")
+
+
+def ack_advance_exact(cx, iid):
+    """T1x: the sender accepts every acknowledgement that reports a frame-window base inside (base, next_id]
+    — including the one that acknowledges everything outstanding — and culls the frame log whenever the
+    reported base has moved the log's base by 1..len entries (all of them included).  An off-by-one that
+    refuses `delta == span` leaves the window closed for good when the last outstanding frame is
+    acknowledged last."""
+    R = cx.R
+    with cx.instance(iid, "T1x EXACT-GUARD", "can_advance_transfer_window == (delta != 0 && delta <= next_id - base); the log is culled exactly when 0 < log_delta <= log.len()", floor=3) as inst:
+        cp = R.body("FrameQueue::can_advance_transfer_window")
+        fa = cx.fa(cp)
+        D = r"u32::wrapping_sub\(arg2,arg1\.window\.base_id\)"
+        N = r"u32::wrapping_sub\(FrameLog::next_id\(arg1\.frame_log\),arg1\.window\.base_id\)"
+        forms = []
+        for loc, kind, node in cp.defs.get(0, []):
+            if kind != "assign":
+                continue
+            v = show(cp.rvalue_expr(node["rv"]))
+            forms.append(v)
+            inst.site(cp, loc, "can_advance = " + v[:100])
+            if v == "false":
+                g, _ = dnf_holds(fa.at(loc), [[r"eq\(0,%s\)" % D]])
+                if not g:
+                    inst.violation(cp.path, "refusal", "can_advance_transfer_window refuses on a path other than delta == 0", at=cp.span_at(loc))
+            elif not re.fullmatch(r"le\(%s,%s\)" % (D, N), v):
+                inst.violation(cp.path, "acceptance", "can_advance_transfer_window accepts on `%s`, expected delta <= next_id - base" % v[:140], at=cp.span_at(loc))
+        if len(forms) != 2:
+            inst.violation(cp.path, "shape", "can_advance_transfer_window has %d result forms, expected `delta != 0 && delta <= next_delta`" % len(forms))
+        b = R.body("FrameQueue::advance_transfer_window")
+        fb = cx.fa(b)
+        culls = call_sites(b, "FrameQueue::cull_log_entries")
+        LD = r"u32::wrapping_sub\(u32::wrapping_sub\(arg1\.window\.base_id,arg1\.window\.tail_size\),FrameLog::base_id\(arg1\.frame_log\)\)"
+        tl = {l.bb for l, _ in culls}
+        for l, lab in culls:
+            inst.site(b, l, "cull_log_entries")
+        if len(culls) != 1:
+            inst.violation(b.path, "cull_log_entries", "expected one cull site (anchor)")
+        for bb in sorted(b.reachable):
+            t = b.term(bb)
+            if t["k"] != "switch":
+                continue
+            for y, lab in b.succ[bb]:
+                if _reach(b, y, tl) or not _reach(b, bb, tl):
+                    continue
+                lits = fb.edge_lits.get((bb, y, lab[1]), [])
+                inst.site(b, Loc(bb, 0), "edge that skips the cull: " + " ".join(lits)[:100])
+                ok = any(re.fullmatch(r"!FrameQueue::can_advance_transfer_window\(arg1,arg2\)", x) or re.fullmatch(r"eq\(0,%s\)" % LD, x) or re.fullmatch(r"lt\(FrameLog::len\(arg1\.frame_log\),%s\)" % LD, x) for x in lits)
+                if not ok:
+                    inst.violation(b.path, "cull skipped", "the frame log is not culled on `%s`: acknowledged frames stay in the log and produce no feedback" % " ".join(lits)[:140])
 
 
 def _reach(b, start, targets):
@@ -255,6 +312,12 @@ def rest(cx):
 
 
 SELFTEST = [
+    {"name": "frame log not culled when every logged frame is acknowledged",
+     "edits": [{"file": "src/half_connection/frame_queue.rs", "old": "if delta != 0 && delta <= self.frame_log.len() {", "new": "if delta != 0 && delta < self.frame_log.len() {"}],
+     "expect": ["C11.m"]},
+    {"name": "step() forgets to store the clock",
+     "edits": [{"file": "src/half_connection/mod.rs", "old": "        self.now_ms = now_ms;\n", "new": ""}],
+     "expect": ["C11.l"]},
     {"name": "set sync_reply only when the sync frame carried an id",
      "edits": [{"file": "src/half_connection/mod.rs", "old": "            self.packet_receiver.resynchronize(next_packet_id);\n        }\n\n        self.sync_reply = true;", "new": "            self.packet_receiver.resynchronize(next_packet_id);\n            self.sync_reply = true;\n        }"}],
      "expect": ["C11.a"]},
